@@ -12,7 +12,22 @@ def cbytes_big(bs):
     parser does not recurse 65535 deep on one list literal."""
     if len(bs) <= 1000:
         return cbytes(bs)
-    return '(concat %s)' % clist([cbytes(bs[i:i + 1000]) for i in range(0, len(bs), 1000)])
+    # runs of one octet (the filler of the 64K frames) are written as List.repeat, the rest in pieces of 1000
+    parts, i, lit = [], 0, []
+    def flush():
+        for j in range(0, len(lit), 1000):
+            parts.append(cbytes(lit[j:j + 1000]))
+        del lit[:]
+    while i < len(bs):
+        j = i
+        while j < len(bs) and bs[j] == bs[i]: j += 1
+        if j - i >= 64:
+            flush(); parts.append('(List.repeat %d%%N (N.to_nat %d%%N))' % (bs[i], j - i))
+        else:
+            lit.extend(bs[i:j])
+        i = j
+    flush()
+    return '(concat %s)' % clist(parts)
 
 # ------------------------------------------------------------------ BFD
 def bfd_valid(rng):
@@ -558,6 +573,24 @@ def gen_bgp(rng, n, tier):
             nl.append(E.prefix(24, rbytes(rng, 3)) if not addpath_of(codec, E.IPV4) else E.with_path_id(1, E.prefix(24, rbytes(rng, 3))))
         b = E.update([], [E.attr(0x40, 1, [0]), E.attr(0x40, 2, []), E.attr(0x40, 3, [1, 1, 1, 1])], nl)
         add(codec, [b.d])
+    # ---- a large frame that arrives in pieces and is FOLLOWED by further frames (decoder state across calls, round 4)
+    for _ in range(6 if tier == 'quick' else 16):
+        codec = rand_codec(rng, [E.IPV4])
+        L = rng.choice([4096, 4000, 3000] if not codec['ext'] else [4097, 5000, 9000, 4096])
+        nl = []
+        while sum(len(x) for x in nl) < L - 60:
+            nl.append(E.prefix(24, rbytes(rng, 3)) if not addpath_of(codec, E.IPV4) else E.with_path_id(1, E.prefix(24, rbytes(rng, 3))))
+        b = E.update([], [E.attr(0x40, 1, [0]), E.attr(0x40, 2, []), E.attr(0x40, 3, [1, 1, 1, 1])], nl)
+        rest = []
+        for _ in range(rng.randint(1, 3)):
+            rest += rand_msg(rng, codec).d
+        cuts = sorted(set(rng.randrange(1, len(b.d)) for _ in range(rng.randint(1, 3))))
+        chunks, prev = [], 0
+        for c in cuts:
+            chunks.append(b.d[prev:c]); prev = c
+        tail = fragment(rng, rest) if len(rest) < 400 else [rest]
+        chunks.append(b.d[prev:] + tail[0])
+        add(codec, chunks + tail[1:])
     return out
 
 def kind_of(fam):
@@ -723,6 +756,42 @@ def oracle_bfd(c, o):
             return 'bfd::Message::decode accepted a packet failing the RFC 5880 reception checks'
     return None
 
+STREAM_KINDS = ('rtr', 'bgp', 'fuzz')
+FRESH_KIND = {1: 4, 2: 5}
+
+def stream_result(o):
+    """(messages, final error) of one run: what fragmentation invariance speaks about"""
+    if o == PANIC:
+        return 'panic'
+    return ([e[1] for e in o if e[0] == 0], [e[1:-1] for e in o if e[0] == 2])
+
+def oracle_memoryless(what, chunked, whole, fresh):
+    """Property text (fragmentation invariance; a decoder is memoryless between calls except for the buffer),
+    checked on the REAL decoder against ITSELF, not against the model: (1) the same chunks given to a decoder
+    object that is re-created before every call must produce the same events, one by one; (2) the same bytes
+    fed as one chunk must produce the same messages and the same final error.  The model cannot have hidden
+    state (its decoder is a function of the buffer and an immutable codec), so this is the check that ties
+    that shape to the code, whatever field the state lives in."""
+    if PANIC in (chunked, whole, fresh):
+        return None        # judged by oracle_stream
+    if chunked != fresh:
+        n = next((i for i, (x, y) in enumerate(zip(chunked, fresh)) if x != y), min(len(chunked), len(fresh)))
+        return ('%s keeps state between calls: from call %d on, the decoder object that has seen the earlier calls answers differently from a '
+                'fresh decoder object given the same buffer (%s vs %s)' % (what, n + 1, _ev(chunked, n), _ev(fresh, n)))
+    a, b = stream_result(chunked), stream_result(whole)
+    if a != b:
+        return ('%s is not fragmentation invariant: the stream fed in the generated chunks gives %d message(s) and error %s, the same bytes fed '
+                'whole give %d message(s) and error %s' % (what, len(a[0]), a[1] or 'none', len(b[0]), b[1] or 'none'))
+    return None
+
+def _ev(o, n):
+    if n >= len(o): return 'no further event'
+    e = o[n]
+    if e[0] == 0: return 'a message, %d left' % e[-1]
+    if e[0] == 1: return 'need more, %d left' % e[-1]
+    if e[0] == 2: return 'error %s, %d left' % (e[1:-1], e[-1])
+    return 'event %s' % e[0]
+
 def _unlimit_stack():
     """coqc evaluates 65535-byte frames with deep non-tail recursion (vm_compute on the native
     stack): lift the soft stack limit for the coqc children"""
@@ -761,6 +830,13 @@ class Prop:
                     'prefix_sid.rs and tunnel_encap.rs are not reached by try_parse (the receive path keeps those attributes as bytes) and are not covered',
                     'the marker (first 16 octets of the BGP header) is not checked by the code, the model or the property',
                     'String::from_utf8 in the FQDN capability is modelled by the Unicode well-formedness table (Model/Wire.v utf8_valid_fuel)',
+                    'HIDDEN DECODER STATE: the model\'s decoders are functions of the buffer (and, for BGP, of an immutable session codec); the five *_fragmentation_invariant / '
+                    '*_complete_frame_decided theorems therefore speak about decoders that are memoryless between calls BY CONSTRUCTION, while PeerCodec::try_parse and RtrCodec::decode '
+                    'take &mut self and can remember anything.  What ties the two: (i) the harness keeps ONE decoder object per stream, as the daemon does, and its event list is compared '
+                    'with the model on every case; (ii) on every stream case the implementation is also compared WITH ITSELF (gen/c03.py oracle_memoryless): the same chunks with a decoder '
+                    'object re-created before every call must give the same events one by one, and the same bytes fed whole must give the same messages and final error.  (ii) exposes '
+                    'state in any field, present or future, provided some generated stream drives the decoder into the state and then past it; the class list bgp_state_* / rtr_state_* '
+                    '(a frame whose length is read before its body has arrived, delivered in pieces, FOLLOWED by further frames) is what provides that, and is a sample, not a proof',
                     'the model is evaluated once per case for both build profiles (Proofs/WireOpen.v try_parse_profile_indep); the harness still runs the debug and the release build']
     assumptions = ['bytes are 0..255 (the harness cannot supply anything else)',
                    'the receive loop is the one of PeerSession::run_select / tokio_util FramedRead: append what was read, call the decoder until it '
@@ -780,7 +856,7 @@ class Prop:
         if c['k'] == 'bfd':
             return 'run_bfd %s' % cbytes(c['bytes'])
         if c['k'] == 'rtr':
-            return '%s %s' % ('run_rtr_v0' if os.environ.get('C03_RTR_V0') else 'run_rtr', clist([cbytes(x) for x in c['chunks']]))
+            return '%s %s' % ('run_rtr_v0' if os.environ.get('C03_RTR_V0') else 'run_rtr', clist([cbytes_big(x) for x in c['chunks']]))
         if c['k'] == 'bgp':
             return 'run_bgp %s %s' % (codec_coq(c['codec']), clist([cbytes_big(x) for x in c['chunks']]))
         raise ValueError(c)
@@ -812,7 +888,23 @@ class Prop:
 
     # ---- running
     def run_impl(self, cases, tier):
-        return hxpacket.run_both('C03', [self.case_to_val(c) for c in cases])
+        """observation of a BFD case: [debug, release]; of a stream case: [debug, release, whole_debug,
+        whole_release, fresh_debug, fresh_release] where whole = the same bytes fed as ONE chunk and fresh =
+        the same chunks with a NEW decoder object before every call (harness kinds 4/5).  Only the first two
+        are compared with the model (canon); oracle_memoryless compares the runs of the REAL codec with each
+        other."""
+        vals, where = [], []
+        for i, c in enumerate(cases):
+            v = self.case_to_val(c)
+            where.append([len(vals)]); vals.append(v)
+            if c['k'] in STREAM_KINDS:
+                whole = [b for ch in c['chunks'] for b in ch]
+                where[i].append(len(vals)); vals.append(v[:-1] + [[whole]])
+                where[i].append(len(vals)); vals.append([FRESH_KIND[v[0]]] + v[1:])
+        obs, err = hxpacket.run_both('C03', vals)
+        if obs is None:
+            return None, err
+        return [[x for j in w for x in obs[j]] if len(w) > 1 else obs[w[0]] for w in where], ''
 
     def run_model(self, cases, tier):
         _unlimit_stack()
@@ -829,17 +921,26 @@ class Prop:
 
     def canon(self, case, obs):
         # families behind the oracle are not evaluated in the model: only the Spec oracle judges them
-        return 'not-modelled' if case['k'] == 'fuzz' else obs
+        if case['k'] == 'fuzz': return 'not-modelled'
+        # [debug, release] is what the model is compared with; the whole-fed and fresh-decoder runs of the
+        # implementation (run_impl) are judged by the oracle only
+        return obs[:2] if case['k'] in STREAM_KINDS and isinstance(obs, list) else obs
 
     # ---- Spec oracle on the implementation's observations [debug, release]
     def oracle(self, c, obs):
-        for prof, o in zip(('debug', 'release'), obs):
+        for prof, o in zip(('debug', 'release'), obs[:2]):
             if c['k'] == 'bfd': why = oracle_bfd(c, o)
             elif c['k'] == 'rtr': why = oracle_stream(c, o, rtr_complete, 'RtrCodec::decode')
             elif c['k'] in ('bgp', 'fuzz'): why = oracle_bgp(c, o)
             else: why = None
             if why:
                 return '%s build: %s' % (prof, why)
+        if c['k'] in STREAM_KINDS and len(obs) == 6:
+            what = 'RtrCodec::decode' if c['k'] == 'rtr' else 'PeerCodec::try_parse'
+            for j, prof in ((0, 'debug'), (1, 'release')):
+                why = oracle_memoryless(what, obs[j], obs[2 + j], obs[4 + j])
+                if why:
+                    return '%s build: %s' % (prof, why)
         return None
 
     def in_known_class(self, kf, c, obs, why):
